@@ -159,7 +159,11 @@ def gen_history(run_seed: int, tier: str, plugin: Optional[str] = None) -> Dict[
     reps = r.choice([1, 1, 2, 3])
     finals = [gw.env_for(run_seed, f"final{i}", re_) for i in range(reps)]
     use_test_dir = plugin == "rust" and r.random() < 0.6
-    return {"run_seed": run_seed, "plugin": plugin, "model": M, "ops": ops, "finals": finals, "test_dir": use_test_dir}
+    # where the output directory lives: short path, or nested under long directory names, or reached
+    # through a relative path from another working directory is not possible (cwd must be the tree), so
+    # only the location varies
+    out_depth = r.choice([0, 0, 1, 3, 5])
+    return {"run_seed": run_seed, "plugin": plugin, "model": M, "ops": ops, "finals": finals, "test_dir": use_test_dir, "out_depth": out_depth}
 
 
 # --------------------------------------------------------------------------------------------
@@ -225,7 +229,7 @@ def execute(h: Dict[str, Any]) -> Dict[str, Any]:
     probes = {k: 0 for k in ["stale_owned_placed", "stale_realname_placed", "foreign_placed", "empty_pkg_dir_placed", "committed_copy_placed",
                              "cleanup_removed_stale", "stale_overwritten", "fault_fired", "fault_not_reached", "faulted_run_failed",
                              "faulted_run_left_partial", "other_plugin_tree", "merge_files", "different_model_before", "listing_permuted",
-                             "test_dir_used", "uuid_checked", "ascii_locale", "clock_shifted"]}
+                             "test_dir_used", "uuid_checked", "ascii_locale", "clock_shifted", "long_output_path"]}
     faults_fired: Dict[str, int] = {}
     evlog: List[Any] = []
     try:
@@ -251,6 +255,10 @@ def execute(h: Dict[str, Any]) -> Dict[str, Any]:
         ref_writes = sum(1 for e in ref["events"] if e["ev"] == "open_w")
 
         out = w.path("out")
+        for i_ in range(h.get("out_depth", 0)):
+            out = out / ("nested-output-location-%02d-" % i_ + "x" * 14)
+        if h.get("out_depth"):
+            probes["long_output_path"] += 1
         td = w.path("td")
         if h.get("test_dir") and pristine_main.exists():
             (td / "src").mkdir(parents=True)
@@ -415,6 +423,7 @@ def minimise(h: Dict[str, Any], sig: str) -> Tuple[Dict[str, Any], Dict[str, Any
         lambda c: c.update(finals=c["finals"][:1]),
         lambda c: c.update(finals=[{"hashseed": "0", "uuid_seed": 2, "ls_seed": None, "locale": None}] * len(c["finals"])),
         lambda c: c.update(test_dir=False),
+        lambda c: c.update(out_depth=0),
         lambda c: c["model"].pop("split", None),
         lambda c: c["model"].pop("compact", None),
         lambda c: c["model"].update(n_edits=0),
